@@ -241,11 +241,15 @@ class Model:
             from .inventory import FUNCTIONS, MODULE_NAMES
         except ImportError:
             return
-        from .inline import MAX_ROUNDS, desugar_ifexp, desugar_match, desugar_return_all_any, dissolve_new_cm_classes, drop_absorbed_helpers, erase_new_namedtuples, inline_new_helpers, scalarise_local_dicts, unroll_new_tables, propagate_new_constants
+        from .inline import MAX_ROUNDS, desugar_ifexp, desugar_match, desugar_exitstacks, desugar_partials_and_extends, desugar_return_all_any, dissolve_new_cm_classes, drop_absorbed_helpers, erase_new_namedtuples, inline_new_helpers, scalarise_local_dicts, unroll_new_tables, propagate_new_constants
 
         if desugar_match(self):
             self._reindex()
         if desugar_ifexp(self):
+            self._reindex()
+        if desugar_partials_and_extends(self):
+            self._reindex()
+        if desugar_exitstacks(self):
             self._reindex()
 
         self.namedtuples_erased = erase_new_namedtuples(self, MODULE_NAMES)
